@@ -126,6 +126,35 @@ CHECKS = {
     technique="Lean 4 theorems (list partition, counting by indicator sums, last-index search); differential correspondence",
     design="3/C19",
     note="Weighted sums are conserved by the same partition argument but are checked numerically only (1e-9); netCDF/xarray/sqlite layers are exercised, not modelled."),
+ "C12": dict(
+    text="Proof for ALL masks, sizes, ocean distances and start cells: one dilation step is sound; k dilations hold n at a cell iff n <= k "
+         "is the length of its shortest four-connected obstacle-free path to a source (induction on k over an inductive reachability "
+         "relation), obstacles stay -2, unreachable cells stay -1; hence the fjord index is the BFS distance to the open ocean "
+         "(fjord_index_is_shortest_path); descent picks a neighbour exactly one lower; following the field in grid orientation visits "
+         "indices n, n-1, ..., 0, never enters land or leaves the grid, and the velocity is zero on the ocean. The orientation in which "
+         "vps/gridforce.py uses v is a KNOWN FINDING (picture_orientation_fails proved; snapshot-pinned). Tie: fjord_index and descent "
+         "compared exactly with the model on exhaustive 3x4 masks and random masks up to 14x14; independent BFS oracle; path following "
+         "through the real Forcing.fish_velocity.",
+    technique="Lean 4 theorems (BFS invariant by induction over dilation steps, inductive reachability, path following by induction); exact differential correspondence",
+    design="3/C12",
+    note="The driver evaluates the iterated dilation with memoisation between steps (same function values)."),
+ "C14": dict(
+    text="Proof: compute_w is linear in (u,v) for arbitrary bathymetry/stretching/metrics, zero on the lateral boundary; over a flat "
+         "bottom it equals -pm*pn*(W_k - (z_k-z_0)/(z_K-z_0) W_K) with W_k the cumulated net inflow of the layer transports, hence zero at "
+         "bed and surface, zero for non-divergent transports, positive under surface convergence. Tie: cell-by-cell model, bit-exact "
+         "against the real compute_w on synthetic grids (10^4 values per run); implementation-side identity/linearity oracles.",
+    technique="Lean 4 theorems (ring identities, induction on the vertical cumsum) on a cell-by-cell model; bit-exact differential correspondence",
+    design="3/C14"),
+ "C15": dict(
+    text="Proof: clamped cell indices are inside the array for every position and equal the nearest in-array index (witnesses that the "
+         "unclamped index wraps / raises); bilinear value exact at nodes and between the four corners; trilinear weights non-negative "
+         "summing to 1 so sampled fields are convex combinations; velocity = value of the containing layer; level search brackets the "
+         "depth with a weight in [0,1] that reproduces it; vertdiff level interior, diffusivities non-negative, zero on land. Tie: cell "
+         "index, z2s, vertdiff level, bilinear value against the real Grid/Forcing on synthetic ROMS files; oracle 'every query inside or "
+         "up to one cell outside returns the nearest edge cell's value'.",
+    technique="Lean 4 theorems (omega on clamped indices, convexity by nlinarith, list lemma for the level search); differential correspondence",
+    design="3/C15",
+    note="xy2ll/ll2xy (LADiM's bilin_inv) are exercised only; end-to-end boundary-exit runs are part of the thorough tier when available."),
 }
 
 def main():
